@@ -328,6 +328,11 @@ def run(tier, seed):
             base = {q: 7000 + ti for q in sigmod.REQUIRED[name] if q != pname}
             how = rng.choice(["keyword", "positional"]) if params.index(pname) == 0 and not (set(sigmod.REQUIRED[name]) - {pname}) and pname not in sigmod.KWONLY.get(name, ()) else "keyword"
             outs = []
+            for v in (v1, v2):          # earlier iterations may have memoized these very calls
+                try:
+                    f.forget(**dict(base, **{pname: v}))
+                except Exception:
+                    pass
             for v in (v1, v2):
                 tr.clear()
                 try:
